@@ -1662,6 +1662,10 @@ namespace avel {
         auto d0 = extract<0>(denominator);
         auto d1 = extract<1>(denominator);
 
+        //A zero divisor must not trap; the result of such a lane is unspecified
+        d0 += (d0 == 0);
+        d1 += (d1 == 0);
+
         vec2x64u quotient{};
         quotient = insert<0>(quotient, n0 / d0);
         quotient = insert<1>(quotient, n1 / d1);
